@@ -182,6 +182,11 @@ def run(ctx):
         import json
 
         case = json.load(open(ctx.replay))["case"]
+        if "kind" in case:
+            from harness.props import c05_real
+
+            c05_real.run(ctx, case)
+            return
         replay(ctx, case["behaviour"], 0)
         return
     behs = []
@@ -203,5 +208,9 @@ def run(ctx):
         "distinct = distinct (algorithm, parameters, constrained, mode, state-class)"
     )
     ctx.section("replay", steps_checked=nsteps, tolerance=TOL)
+    # the weight tables of the specification applied to real simulations (Elastic, Thermal, Beam) of any size
+    from harness.props import c05_real
+
+    c05_real.run(ctx)
     ctx.assume("float comparison with exact rationals at 1e-10 * scale; the harness _Simu subclass supplies K, C, M (2x2) so element integration is out of scope here")
     ctx.assume("one step is an affine map of (u,v,a) and a rational function of (dt, alpha, beta, gamma): agreement on an affine basis of states and on > degree lattice points per parameter extends to all inputs")
